@@ -37,7 +37,8 @@ def tie_disturbed():
 def prove_stable(ctx, attempts=4):
     for k in range(attempts):
         nob, notes = len(ctx.obligations), dict(ctx.notes)
-        proved = cm.prove(ctx)
+        # Props/PyTieScores.vo: bias/nse/kge/binary as TRANSLATED from metrics.py (Gen/PyGen.v) = the model
+        proved = cm.prove(ctx, extractors=["c04", "pygen"], extra_targets=["Props/PyTieScores.vo"])
         if proved and not tie_disturbed():
             return True
         if not tie_disturbed() and not proved:
